@@ -1059,7 +1059,7 @@ class OnlyIf:
                     return k["variant"] not in pred[1]
                 return False
             if c is None:
-                return False
+                return self._symbolic_const_implies(op, pred, cl, at)
             return not self._const_satisfies(int(c), pred)
         p = op.get("c") or op.get("m")
         if p is None:
@@ -1067,6 +1067,16 @@ class OnlyIf:
         if p["pj"]:
             return self._implies_place_value(p, pred, cl, at)
         return self.implies_local(p["l"], pred, cl, ())
+
+    def _symbolic_const_implies(self, op, pred, cl, at=None):
+        """An unevaluated (generic) constant such as `C::PERSIST`: a BoolIs literal naming it is
+        established on the edge that tests it."""
+        o = self.body.origin_op(op, 0, self.subst, at)
+        pb = self._pred_bool(pred)
+        for lit in cl.lits:
+            if lit.kind == "bool" and pb is not None and lit.origin.search(o) is not None and pb == lit.val:
+                return True
+        return False
 
     def _const_satisfies(self, c, pred):
         if pred[0] == "eq":
@@ -1134,7 +1144,7 @@ class OnlyIf:
                     return self.guarded_block(site.bb, cl)
                 c = kk.get("v")
                 if c is None:
-                    return self.guarded_block(site.bb, cl)
+                    return self._symbolic_const_implies(o, pred, cl, site) or self.guarded_block(site.bb, cl)
                 if not self._const_satisfies(int(c), pred):
                     return True  # this def never yields the tested value
                 return self.guarded_block(site.bb, cl)
